@@ -100,7 +100,7 @@ func kindSig(k map[string]int) string {
 
 func init() {
 	register(&Prop{
-		ID: "C02",
+		ID:   "C02",
 		Rule: "G-article pages (block grammar: paragraphs with inline markup and javascript: anchors, headings, nested lists, quotes, pre, images, pictures, figures with plain/link captions, videos, embeds, twitter quotes, data and layout tables, link clusters, hidden carriers), every word a unique token w<N>q; delivered as bytes (even cases) or parsed tree (odd cases). A case is non-trivial when at least one token was emitted; distinct = distinct (set of block kinds present, number of emitted tokens bucketed by 25).",
 		Assumptions: []string{
 			"source-visible is known by construction (the generator knows which tokens it put in script/style/comment/hidden carriers or in <title>)",
